@@ -7,7 +7,7 @@ vector registers and scalars that hold data are arrays of byte-lane tags (zero |
   store instance: memory bytes base+0 .. base+SIZE-1 receive lanes 0 .. SIZE-1 of the input register, each once, and nothing else is stored.
 No instruction is executed and memory contents are never concrete.  The summaries (base register, data register, SIZE register) are used by V-SAME-OFFSET, and
 R-TAIL-SIZE ties base offset + SIZE to len@entry with the linear forms of tools/asmlin.py."""
-import re
+import re, os
 from asmdb import is_mem, parse_mem, REG64, VREG
 from common import AnalysisBroken
 import asmlin, provenance
@@ -357,6 +357,7 @@ def check(rep, suffix, families, floor):
             T.check(not tot, w, '%s: the %s expansion handles SIZE = %s bytes at offset %s: offset + SIZE - len@entry = %s, not 0' %
                     (sym, s_['kind'], asmlin.fmt(L.reg(S, s_['size_reg'])), asmlin.fmt(dict(sp[1])) or '0', asmlin.fmt(tot)), key='R-TAIL-SIZE|%s|%#x' % (sym, s_['first'] - f.entry),
                     sample='%s: offset + SIZE = len' % sym if sym.startswith('gf_2vect') else None)
-    if nk == 0:
+    if nk == 0 and not os.environ.get('VERIF_SUBRUN'):
+        # (assembler feature levels below 10 leave the GFNI units empty: nothing to decide in those sub-runs)
         raise AnalysisBroken('M-LANE-MACRO-%s: no kernel expands the macros' % suffix)
     R.notes.append('%d kernels' % nk)
